@@ -285,6 +285,7 @@ pub fn slices() -> Vec<Slice> {
             break_continue: true,
             ret: true,
             print_stmt: false,
+            named_funcs: vec![],
             max_stmts: 2,
             max_expr: 5,
         },
@@ -342,6 +343,34 @@ pub fn count_programs(sl: &Slice, tier: Tier) -> u64 {
     let en = Enumerator::new(sl.grammar.clone());
     let ctx = Ctx { in_loop: false, in_func: sl.in_func, loop_depth: 0, func_depth: 0 };
     (1..=bound).map(|n| en.count_blocks(n, ctx)).sum()
+}
+
+/// The scope slice of C09: declarations, assignments and prints of {a, b}, blocks, `als ja`, a one-shot
+/// loop, named functions f(p) nested in blocks and in functions, calls; every declaration's literal is
+/// renumbered afterwards so that the value read tells which declaration was resolved.
+pub fn scope_slice() -> Slice {
+    Slice {
+        name: "scope",
+        prelude: vec![],
+        wrap: None,
+        grammar: Grammar {
+            atoms: vec![id("a"), id("b"), int(0)],
+            func_atoms: vec![id("p")],
+            let_names: names(&["a", "b"]),
+            assign_names: names(&["a"]),
+            callees: vec![("f".into(), 1)],
+            named_funcs: vec![("f".into(), vec!["p".into()])],
+            if_expr: true,
+            loop_counts: vec![1],
+            block_stmt: true,
+            print_stmt: true,
+            max_stmts: 4,
+            max_expr: 3,
+            ..Default::default()
+        },
+        bound: (6, 7),
+        in_func: false,
+    }
 }
 
 /// Directed family: a function nested in a function, the inner one reading / writing / combining
